@@ -20,7 +20,7 @@ NOTES = {
     'C06': 'Sub-checks `product`, `edits` (BFS, states hashed on (order, marker lists)), `surplus` (1-5 extra POPs on each triple in turn; added after a seeded change needing >= 3 surplus POPs was missed) and `totality`. Second-wave additions: every edit state is also encoded from a deep copy, and an AMR family (`:consist-of`, `:consist-of-of`) for the edits.',
     'C07': 'Sub-checks `strings`, `strings_block` (rotating block of the next length), `tokens` / `ttokens` (token DFS with dead-prefix pruning, one shard per 3-token prefix), `gmacro` / `tmacro` (macro tokens: whole nodes / whole triples, so that 3-triple conjunctions and multi-graph streams are reached), `deep`, `long` (unterminated quotes, escapes, symbols, comments of length 40/400/4000 - this is what exposes a backtracking-regex hang) and `unicode`. Wave 4: a `holes` sub-check fills one hole in six templates (after a concept, a role, a string, a symbol, a triple source, a triple target) with every string of length <= 4 over 14 characters of the token micro-grammars (`~ ^ _ [ \\ ] ` . , : -` and letters/digits).',
     'C08': 'As designed (three containers, two patterns). `Token.line` is deliberately not asserted (not part of the statement).',
-    'C09': 'Complete product over a fixed 9-graph corpus (two graphs share their first metadata line) and 8 serialisations incl. joining with nothing, as the statement says ("with none"); streams are created with universal newlines like text-mode files. Wave 4: dump/load by file name also with a non-default encoding (UTF-16). File names are also given as `pathlib.Path`.',
+    'C09': 'Complete product over a fixed 9-graph corpus (two graphs share their first metadata line) and 8 serialisations incl. joining with nothing, as the statement says ("with none"); streams are created with universal newlines like text-mode files. Wave 4: dump/load by file name also with a non-default encoding (UTF-16). File names are also given as `pathlib.Path`. The `compact` option of dump/dumps/encode varies with the sequence.',
     'C10': 'Reference relabelling from the docstring; three variable-name variants per tree (identity, a<->b swapped, names colliding with generated names) and alignment prefixes spelled like the variable (`a~a.3`) were added after two seeded changes were missed by the a,b,c-in-order naming of the family; a fourth variant uses names that do not start with a letter (`_2`, `_`, `1`).',
     'C11': 'Sub-checks `inverse` and `nocollapse`; table ambiguity and input collapsibility are decided by reference predicates written from the statement. Role and target alignments can now be equal (`:polarity~e.1 k~e.1`), and `nocollapse` also runs with a two-character top variable. Wave 4: a re-topped initial variant (the top is not the source of the first triple); a look-alike node whose collapse would put a constant in source position is not collapsible.',
     'C12': 'BFS over programs from five initial variants; a family of 4-node chains of reified nodes was added after a seeded change (surplus POPs after two nested dereifications) needed it.',
@@ -31,7 +31,7 @@ NOTES = {
     'C17': 'Sub-checks `purity`, `history`, `streams`, `processes`, `hashseeds`; the baseline of `history` and `hashseeds` is computed by a fresh sub-process (`pmc/props/c17_battery.py`). The battery has 46 calls (incl. `Model.reify/dereify/invert/deinvert/canonicalize` and the sort keys of two models) x 16 arguments (incl. a graph with an implicit top and one with the ambiguous `include-91`). Wave 4: in the `history` sub-check the client uses every documented in-place operation on the results of earlier calls; the command-line runs include combined sort keys in both orders.',
     'C18': 'Sub-checks `quote` and `atoms`; atom texts are restricted to what the Atom production can yield (a lone `"` or a text with blanks is not an atom). Wave 4: a combining mark (strings that are not in NFC).',
     'C19': 'Sub-checks `single`, `lists`, `decoded`; spacing variants are always compared with the reference recogniser and with the original list whenever the pieces cannot glue into other symbols (e.g. `a,^y`). Wave 4: a role given without its colon must come back with it. Decoded triple lists also go through `PENMANCodec.format_triples/parse_triples`.',
-    'C20': 'Sub-checks `options` (2688 option sets x 5 models x 6 streams), `formats`, `channels`, `subprocess`. The "decodes to the same graphs" clause is asserted only for streams that are well-formed under the selected model (the statement says "well-formed input"). Wave 4: combined rearrange keys in non-table order, `--indent 0 --compact`, roles with five and six stacked inversions (2 688 option sets, 10 formatting options).',
+    'C20': 'Sub-checks `options` (2688 option sets x 5 models x 6 streams), `formats`, `channels`, `subprocess`. The "decodes to the same graphs" clause is asserted only for streams that are well-formed under the selected model (the statement says "well-formed input"). Wave 4: combined rearrange keys in non-table order, `--indent 0 --compact`, roles with five and six stacked inversions (2 688 option sets, 10 formatting options). `channels` also reads two UTF-16 files announced with `--encoding`.',
 }
 
 
